@@ -66,7 +66,7 @@ pub const RULES: [RuleSel; 19] = [
 /// exemption selector: 0 -> 1, 1 -> 2, 2 -> 3, 3 -> n/2, 4 -> n/2+1
 pub const NEXEMPT: usize = 5;
 /// assertion-set selector (see `asserts`)
-pub const NASSERT: usize = 9;
+pub const NASSERT: usize = 11;
 
 pub fn dim_size(dim: usize) -> usize {
     match dim {
@@ -126,7 +126,12 @@ fn asserts(sel: usize, n: usize, e: usize, width: usize) -> (Vec<ASpec>, Option<
         // sequences: stride 2 (n/2 values: 64 or more for n >= 128), zero and non-zero first step
         6 => (vec![ASpec { col: 0, kind: AKind::Sequence { first: 0, stride: 2 } }], None),
         7 => (vec![ASpec { col: 0, kind: AKind::Sequence { first: 1, stride: 2 } }, ASpec { col: last, kind: AKind::Sequence { first: 0, stride: n / 2 } }], None),
-        _ => (vec![ASpec { col: last, kind: AKind::Sequence { first: 3, stride: 4 } }, single0, ASpec { col: 0, kind: AKind::Single(n / 2) }], None),
+        8 => (vec![ASpec { col: last, kind: AKind::Sequence { first: 3, stride: 4 } }, single0, ASpec { col: 0, kind: AKind::Single(n / 2) }], None),
+        // a periodic and a sequence assertion in ONE group (same stride, same non-zero first step): the periodic one on
+        // the lower column (only for rules that make column 0 repeat with period 1 or 2) ...
+        9 => (vec![ASpec { col: 0, kind: AKind::Periodic { first: 1, stride: 2 } }, ASpec { col: last, kind: AKind::Sequence { first: 1, stride: 2 } }], None),
+        // ... and on the higher one (the rotation column; any rule)
+        _ => (vec![ASpec { col: 0, kind: AKind::Sequence { first: 1, stride: 2 } }, ASpec { col: last, kind: AKind::Periodic { first: 1, stride: 2 } }], Some(2)),
     }
 }
 
@@ -153,6 +158,9 @@ pub fn statement(p: &Point, seed: u64) -> Option<Statement> {
     // a one-column trace has no room for the rotation column a periodic assertion needs: it keeps the single
     // assertion on the first step instead of being dropped (so one-column shapes take part in every deviation)
     let asel = if width == 1 && asserts(p.d[5], n, e, width).1.is_some() { 1 } else { p.d[5] };
+    if asel == 9 && (width < 2 || !matches!(RULES[p.d[1]], RuleSel::Rot(0) | RuleSel::Same | RuleSel::AllSame)) {
+        return None;
+    }
     let (asserts, rot) = asserts(asel, n, e, width);
     // for narrow traces two selectors can name the same cell: overlapping assertions are not part of the supported class
     let mut dedup: Vec<ASpec> = vec![];
@@ -300,6 +308,30 @@ pub fn degree_extension_product() -> Vec<Point> {
                         if statement(&p, 0).map(|st| st.opts.admissible(st.spec.n, st.spec.min_blowup())).unwrap_or(false) {
                             break;
                         }
+                    }
+                    out.push(p);
+                }
+            }
+        }
+    }
+    out
+}
+
+/// rules that make column 0 repeat with period 1, 2 or 4 x every assertion set x {1, 2, 3} exemptions x {no, quadratic}
+/// extension: periodic and sequence assertions with repeating values, and groups that hold both kinds
+pub fn repeating_rule_assertion_product() -> Vec<Point> {
+    let mut out = vec![];
+    for rule in [9usize, 10, 12, 14] {
+        for asel in 0..NASSERT {
+            for ex in 0..3usize {
+                for ext in 0..2usize {
+                    let mut p = base_point();
+                    p.d[1] = rule;
+                    p.d[5] = asel;
+                    p.d[3] = ex;
+                    p.d[11] = ext;
+                    if rule == 14 {
+                        p.d[7] = 2;
                     }
                     out.push(p);
                 }
